@@ -210,3 +210,27 @@ def o04_4(tier):
                 ctx.ensure(ctx.close(cg[i] * s, cf[i]), f"point {i}: curvature has degree -1 (and is translation invariant)")
         return h
     return [(f"n={n}", mk(n)) for n in ((2, 3) if tier == "quick" else (2, 3, 4, 5))]
+
+
+@obligation("O04.9", ["C04", "C07"], ["forsys.edge:BigEdge.calculate_curvature", "forsys.edge:BigEdge.calculate_total_curvature"],
+            "sign convention of the turning (three-point interface A,B,C): the curvature at every point and the total turning are positive exactly when the path "
+            "turns clockwise (y up), i.e. they have the sign of the shoelace area of (A,B,C) used by Cell.get_area_sign: with get_row's rule '+1 on the first cell "
+            "iff its area sign is positive' the row reads p(centre-of-curvature side) - p(other side) = tension x |turning|", tier="P")
+def o04_9(tier):
+    def h(ctx):
+        pts = [(ctx.real(f"x{i}"), ctx.real(f"y{i}")) for i in range(3)]
+        (ax, ay), (bx, by), (cx, cy) = pts
+        be = interface(ctx, pts)
+        # non-degenerate sampling: consecutive points differ and the two chords are not opposite (finite-difference velocity never vanishes)
+        ctx.assume(ctx.Or(ctx.Not(ctx.close(ax, bx)), ctx.Not(ctx.close(ay, by))), "pre")
+        ctx.assume(ctx.Or(ctx.Not(ctx.close(cx, bx)), ctx.Not(ctx.close(cy, by))), "pre")
+        ctx.assume(ctx.Or(ctx.Not(ctx.close(ax, cx)), ctx.Not(ctx.close(ay, cy))), "pre")
+        cross = (bx - ax) * (cy - by) - (by - ay) * (cx - bx)          # > 0: left (counter-clockwise) turn
+        area = shoelace([ax, bx, cx], [ay, by, cy])                     # forsys convention: counter-clockwise => negative
+        ctx.lemma(ctx.close(area * 2, -cross), "shoelace(A,B,C) = -cross/2", premises=[])
+        cur = ctx.list_of(ctx.callm(be, "calculate_curvature"))
+        for i, k in enumerate(cur):
+            ctx.ensure(ctx.And(ctx.Implies(cross > 0, k < 0), ctx.Implies(cross < 0, k > 0), ctx.Implies(ctx.zero(cross), ctx.zero(k))), f"point {i}: curvature has the sign of the shoelace area of (A,B,C)")
+        tot = ctx.callm(be, "calculate_total_curvature", normalized=False)
+        ctx.ensure(ctx.And(ctx.Implies(area > 0, tot > 0), ctx.Implies(area < 0, tot < 0), ctx.Implies(ctx.zero(area), ctx.zero(tot))), "total turning has the sign of the shoelace area of (A,B,C)")
+    return [("three-points", h)]
